@@ -231,6 +231,18 @@ def nat_dump_stats(h):
                 dp2 = got2[1][0].descriptor
                 h.check([get(r, names['rh']) for r in dp2['resources']] == [get(r, names['rh']) for r in desc['resources']] and
                         got2[1][1].get('hash') == stats.get('hash'), 'dump:deterministic-hash', cfg, 'same hashes', None)
+            # dumping a package that was loaded from an earlier dump: its descriptors already carry counters; the new ones must
+            # describe the new files, not old + new
+            if not zipped and ckind != 'disabled' and any(data):
+                from dataflows import load
+                got3 = h.run(lambda: Flow(load(os.path.join(d, 'a', 'datapackage.json')),
+                                          dump_to_path(os.path.join(d, 'c'), **opts)).process())
+                if got3[0] == 'ok':
+                    desc3 = json.load(open(os.path.join(d, 'c', 'datapackage.json')))
+                    for rdesc, rows in zip(desc3['resources'], data):
+                        raw = open(os.path.join(d, 'c', rdesc['path']), 'rb').read()
+                        h.check(get(rdesc, names['rb']) == len(raw), 'dump:redump-bytes', cfg, len(raw), get(rdesc, names['rb']))
+                        h.check(get(rdesc, names['rr']) == len(rows), 'dump:redump-rowcount', cfg, len(rows), get(rdesc, names['rr']))
         finally:
             shutil.rmtree(d, ignore_errors=True)
 
